@@ -28,7 +28,7 @@ claim("C14", E1 + " + " + E2,
       "Bounded symbolic check of the jitted tabular updates (SARSA, Q-learning composed with its greedy successor action, double "
       "Q-learning, Dyna-Q's q_learning_update, Monte-Carlo update with episodes <= 3) on tables 3x2 / 2x3 / 4x2 with symbolic entries "
       "and symbolic in-range indices: every table entry of the result equals the textbook expression (ite over the visited entry).",
-      REAL + " Dyna-Q's learned model: the real counter_update/model_update symbolically executed (E2) over histories of 3-4 symbolic transitions on 2 states x 2 actions with symbolic rewards, compared with empirical frequencies / mean rewards.",
+      REAL + " Dyna-Q's learned model: the real counter_update/model_update symbolically executed (E2) over histories of 3-4 symbolic transitions on 2 states x 2 actions with symbolic rewards, compared with empirical frequencies / mean rewards; the same comparison after every step of the real train_dynaq loop (its own Counter/ForwardModel initialisation) under a symbolic environment (reset state, action, successor, reward, termination per step; 2x2, 3-4 steps; Q-update and planning stubbed as identity).",
       "jaxpr -> SMT with symbolic gather/scatter indices as ite chains; per-entry equality obligations",
       "DESIGN.md §3 C14")
 NOT_APPLICABLE.pop("C14", None)
@@ -115,7 +115,7 @@ claim("C04", E2,
       "history of <=K adds whose terminated/truncated flags are symbolic (capacities 3-6, storage horizons 1-3, sampling horizons "
       "<= storage horizon, K up to N+2), then one sampled window for EVERY admissible start (generator draw symbolic); the window "
       "prefix up to its first terminated step must be same-episode, consecutive in time and in write sequence, free of truncated "
-      "steps and of never-written slots; the reduced view must agree with the full view of the same start.",
+      "steps and of never-written slots; the reduced view must agree with the full view of the same start. Interleaved histories (capacity 3-4, K <= 4 quick / 6 thorough) additionally call sample_batch (concrete draw, result discarded) after one symbolic add position or after every add before the checked sample.",
       E2NOTE + " Observations are concrete ghost tags, rewards symbolic; capacities above 6 / horizons above 3 are outside the bound (no inductive step).",
       "path-forking symbolic execution (bounded model checking over flag patterns and start indices) of the real classes under the allocation shim",
       "DESIGN.md §3 C04")
